@@ -25,9 +25,6 @@ KNOWN_WITNESSES = {
                                                             ('destroy', 'P', 1, 0), ('unpickle', 'P', 1, 0)]),
     'C04:destroy-then-pickle-then-unpickle': ((1, 100, 2), [('create', 'P', None), ('destroy', 'P', 1, 0),
                                                             ('pickle', 'P', 1, 0), ('unpickle', 'P', 1, 0)]),
-    'C04:pickle-then-get-then-drop-then-unpickle-then-unpickle@cull': (
-        (1, 0, 1), [('create', 'P', None), ('pickle', 'P', 1, 0), ('get', 'P', 9), ('drop', 'P', 1, 0),
-                    ('unpickle', 'P', 1, 0), ('unpickle', 'P', 1, 0)]),
 }
 META = {
     'extractors': ['cache'],
@@ -36,13 +33,13 @@ META = {
     'level_text': ('Theorems over the executable model Model/Cache.lean of cache.py + the SQLObject life cycle '
                    '(get/put/finishPut, created, cull, expire, expireAll, destroySelf, __getstate__/__setstate__), for every history, '
                    'every cullFrequency / cullFraction, doCache on and off, refcounting or deferred collection: '
-                   'C04_identity_partial / C04_get_returns_live / C04_unpickle_no_dup for histories that never detach a held '
-                   'instance (obj.expire(), connection.expireAll()) and never unpickle a deleted row or over a lingering dead '
-                   'weak reference; C04_deleted_never_returned_partial under the unpickle-a-deleted-row exclusion only; '
+                   'C04_identity_partial / C04_get_returns_live / C04_unpickle_no_dup / C04_deleted_never_returned_partial for '
+                   'histories that never detach a held instance (obj.expire(), connection.expireAll()), never unpickle a '
+                   'deleted row and never destroy an instance twice; '
                    'the full statements are refuted by concrete witnesses (C04_*_full_FALSE) that this harness replays on the real code.'),
     'level_note': ('Trusted: Lean kernel; the hand-written model of cache.py/main.py, tied to the code by the op-history '
                    'correspondence (sampling); CPython reference counting / weakref / pickle / SQLite are modelled, not verified.'),
-    'rule': ('case = (doCache, cullFrequency, cullFraction, op history); guarded stream (no detaching expire, no unsafe unpickle: '
+    'rule': ('case = (doCache, cullFrequency, cullFraction, op history); guarded stream (no detaching expire, no unpickle of a deleted row; plus a stream with falsy row objects: '
              'the oracle must hold) and free stream (every op at any time: oracle failures are shrunk and keyed by their minimal shape); '
              'distinct = distinct (cfg, history); non-trivial = the history has at least one cache hit on a held object, cull or gc'),
     'trusted': ['model of CPython reference counting: an object dies as soon as neither the application nor the strong cache '
@@ -60,7 +57,7 @@ META = {
     'exhaustive': False,
 }
 
-CLASSES = ('P', 'K')
+CLASSES = ('P', 'K', 'F')
 _envs = {}
 
 
@@ -89,13 +86,24 @@ def env(do_cache):
         'uidx': DatabaseIndex('u', unique=True),
         'rel': RelatedJoin(pname, intermediateTable='c04_link_%d' % do_cache, joinColumn='k_id', otherColumn='p_id'),
     })
+    # a row class whose instances are falsy (container protocol with length 0): nothing in the cache may
+    # confuse "the object is falsy" with "the weak reference is dead"
+    fname = sqlo.uniq('C04F')
+    F = type(fname, (SQLObject,), {
+        '_connection': conn,
+        '__module__': __name__,
+        'name': StringCol(alternateID=True),
+        '__len__': lambda self: 0,
+    })
     # pickle looks classes up by module attribute
     globals()[pname] = P
     globals()[kname] = K
+    globals()[fname] = F
     P.createTable()
     K.createTable()
-    e = {'conn': conn, 'P': P, 'K': K, 'link': 'c04_link_%d' % do_cache,
-         'tables': {'P': P.sqlmeta.table, 'K': K.sqlmeta.table}}
+    F.createTable()
+    e = {'conn': conn, 'P': P, 'K': K, 'F': F, 'link': 'c04_link_%d' % do_cache,
+         'tables': {'P': P.sqlmeta.table, 'K': K.sqlmeta.table, 'F': F.sqlmeta.table}}
     _envs[do_cache] = e
     return e
 
@@ -132,8 +140,8 @@ class World(object):
         self.dead_reported = set()
         self.nslots = 0
         self.pickles = []     # (bytes, cls, id)
-        self.rows = {'P': set(), 'K': set()}   # generator's shadow (NOT used by the oracle)
-        self.maxid = {'P': 0, 'K': 0}
+        self.rows = {'P': set(), 'K': set(), 'F': set()}   # generator's shadow (NOT used by the oracle)
+        self.maxid = {'P': 0, 'K': 0, 'F': 0}
         self.current = {}     # oracle: (cls, id) -> slot of the instance the application holds for that row
         self.fails = []       # oracle failures: (kind, text)
         self.lines = []       # model request lines
@@ -214,8 +222,8 @@ class World(object):
             rid = i if i is not None else self.maxid[cls] + 1
             try:
                 kw = {} if i is None else {'id': i}
-                if cls == 'P':
-                    obj = e['P'](name='p%d' % rid, **kw)
+                if cls in ('P', 'F'):
+                    obj = e[cls](name='p%d' % rid, **kw)
                 else:
                     obj = e['K'](code=100 + rid, u=200 + rid, p=fk_of(rid), **kw)
             except Exception as ex:
@@ -271,8 +279,8 @@ class World(object):
             try:
                 if kind == 'uidx':
                     obj = e['K'].uidx.get(u=200 + i)
-                elif cls == 'P':
-                    obj = e['P'].byName('p%d' % i)
+                elif cls in ('P', 'F'):
+                    obj = e[cls].byName('p%d' % i)
                 else:
                     obj = e['K'].byCode(100 + i)
             except SQLObjectNotFound:
@@ -390,6 +398,8 @@ class World(object):
                     'SELECT id FROM %s WHERE p_id = %d' % (e['tables']['K'], i))]
                 acc = 'kids'
             else:
+                if cls not in ('P', 'K'):
+                    return False
                 tcls = 'K' if cls == 'P' else 'P'
                 mine, other = ('p_id', 'k_id') if cls == 'P' else ('k_id', 'p_id')
                 ids = [r[0] for r in self.conn.queryAll(
@@ -560,7 +570,7 @@ def describe(cfg, history):
 
 
 # -------------------------------------------------------------------- generation
-def gen_history(rng, cfg, n_ops, guarded, sink):
+def gen_history(rng, cfg, n_ops, guarded, sink, falsy=False):
     """generate while executing on the real code (choices look at the generator's shadow state only).
     guarded: never detach a held instance, never unpickle a deleted row, one successful unpickle per row."""
     w = World(cfg)
@@ -588,6 +598,8 @@ def gen_history(rng, cfg, n_ops, guarded, sink):
         r = rng.random()
         refs = held_refs()
         cls = 'P' if rng.random() < 0.45 else 'K'
+        if falsy:
+            cls = 'F' if rng.random() < 0.75 else 'P'
         rows = sorted(w.rows[cls])
 
         def some_id():
@@ -641,7 +653,9 @@ def gen_history(rng, cfg, n_ops, guarded, sink):
             else:
                 do(('expire', c, i, j))
         elif r < 0.87:
-            if rng.random() < 0.6:
+            if rng.random() < 0.6 or falsy:
+                # (falsy instances: CacheFactory.getAll() skips them, so expireAll() does not reach them —
+                #  a staleness matter, C05/C07; kept out of this stream)
                 continue
             if guarded:
                 if len(refs) <= 3:
@@ -661,7 +675,7 @@ def gen_history(rng, cfg, n_ops, guarded, sink):
         elif w.pickles:
             p = rng.randrange(len(w.pickles))
             _, c, i = w.pickles[p]
-            if guarded and (i not in w.rows[c] or (c, i) in unpickled):
+            if guarded and i not in w.rows[c]:
                 continue
             n0 = w.nslots
             do(('unpickle', c, i, sum(1 for q in range(p) if w.pickles[q][1:] == (c, i))))
@@ -727,18 +741,22 @@ def run(ctx):
     # 2. generated histories
     n_guard = ctx.budget(4000, 60000)
     n_free = ctx.budget(300, 4000)
+    n_falsy = ctx.budget(500, 6000)
     max_ops = 60 if (ctx.tier == 'thorough' or ctx.deep) else 28
     sink = []
-    for k in range(n_guard + n_free):
-        guarded = k < n_guard
+    for k in range(n_guard + n_free + n_falsy):
+        guarded = k < n_guard or k >= n_guard + n_free
+        falsy = k >= n_guard + n_free
         cfg = CONFIGS[ctx.rng.randrange(len(CONFIGS))]
-        if ctx.rng.random() < 0.15:
+        if falsy:
+            cfg = (1, ctx.rng.randrange(0, 3), ctx.rng.randrange(1, 3))
+        elif ctx.rng.random() < 0.15:
             cfg = (ctx.rng.randrange(2), ctx.rng.randrange(0, 7), ctx.rng.randrange(1, 5))
         n_ops = ctx.rng.randint(4, max_ops)
         del sink[:]
-        w = gen_history(ctx.rng, cfg, n_ops, guarded, sink)
+        w = gen_history(ctx.rng, cfg, n_ops, guarded, sink, falsy=falsy)
         cfg, hist, w = sink[0]
-        worlds.append((cfg, hist, w, 'guarded' if guarded else 'free'))
+        worlds.append((cfg, hist, w, 'falsy-instances' if falsy else 'guarded' if guarded else 'free'))
         if w.fails:
             report_failure(ctx, cfg, hist, w, reported)
     # 3. correspondence: all histories through the model driver in one call
